@@ -458,6 +458,12 @@ void make_world(vh::Case &c, World &w)
   unsigned n_readers = 1 + static_cast<unsigned>(rd.weighted({4, 4, 2}));
   for (unsigned r = 0; r < n_readers; ++r)
     w.modes.push_back(static_cast<int>(rd.weighted({4, 4, 2})));
+  if (n_readers == 1 && w.modes[0] != 1 && vh::excluded("F7"))
+  {
+    // open finding F7: with a single delta reader every delta interval starts at SDK start
+    vh::count_excluded("F7");
+    w.modes[0] = 1;
+  }
   w.n_meters       = rd.chance(20) ? 2 : 1;
   unsigned n_instr = 1 + static_cast<unsigned>(rd.weighted({5, 3, 2}));
   std::unique_ptr<sdkm::ViewRegistry> reg(new sdkm::ViewRegistry);
@@ -536,13 +542,14 @@ void make_world(vh::Case &c, World &w)
 }
 
 // create one more handle for (meter, instr); the first one instantiates the model streams
-Handle *create_handle(vh::Case &c, World &w, int m, int i)
+// the SDK call only (used by the threads too)
+std::unique_ptr<Handle> sdk_create(const World &w, int m, int i)
 {
   const InstrCfg &in = w.instrs[static_cast<size_t>(i)];
   std::unique_ptr<Handle> h(new Handle);
   h->meter = m;
   h->instr = i;
-  h->first = w.streams_of.find({m, i}) == w.streams_of.end();
+  h->first = false;
   om::Meter &meter = *w.meters[static_cast<size_t>(m)];
   switch (in.kind)
   {
@@ -559,6 +566,14 @@ Handle *create_handle(vh::Case &c, World &w, int m, int i)
       h->ud = meter.CreateDoubleUpDownCounter(in.name, "", "");
       break;
   }
+  return h;
+}
+
+Handle *create_handle(vh::Case &c, World &w, int m, int i)
+{
+  const InstrCfg &in        = w.instrs[static_cast<size_t>(i)];
+  std::unique_ptr<Handle> h = sdk_create(w, m, i);
+  h->first                  = w.streams_of.find({m, i}) == w.streams_of.end();
   VH_CHECK(c, h->cl || h->cd || h->ul || h->ud, "Create" << kind_name(in.kind) << "('" << in.name << "') returned null");
   if (h->first)
   {
@@ -1060,6 +1075,7 @@ struct RecStep
   int64_t units;
   GenAttrs attrs;
   unsigned reps, form, yield_every;
+  bool fresh_handle;  // the thread asks the meter for the instrument again and records through that handle
 };
 struct Collection
 {
@@ -1109,6 +1125,13 @@ VH_TARGET(counter_threads, 6,
     txt += " " + meter_name(h->meter) + "." + w.instrs[static_cast<size_t>(h->instr)].name;
   txt += "\n";
 
+  unsigned ncol = w.readers.size() >= 2 && rd.chance(50) ? 2 : 1;
+  std::vector<unsigned> rounds(ncol), pause(ncol);
+  for (unsigned t = 0; t < ncol; ++t)
+  {
+    rounds[t] = 2 + rd.below(14);
+    pause[t]  = rd.below(6);
+  }
   unsigned nrec = 1 + rd.below(3);
   std::vector<std::vector<RecStep>> progs(nrec);
   for (unsigned t = 0; t < nrec; ++t)
@@ -1126,17 +1149,23 @@ VH_TARGET(counter_threads, 6,
       s.reps        = 1 + rd.below(60);
       s.form        = rd.below(4);
       s.yield_every = rd.below(5);
+      s.fresh_handle = rd.chance(20);
+      if (s.fresh_handle && vh::excluded("F8"))
+      {
+        vh::count_excluded("F8");
+        s.fresh_handle = false;
+      }
+      if (s.fresh_handle)
+        c.tag("handle-created-while-collectors-run");
       progs[t].push_back(s);
-      txt += "T" + std::to_string(t) + ": " + std::to_string(s.reps) + " x h" + std::to_string(s.handle) + ".Add(" +
-             show_units(s.units, kind) + ", " + sg::show_kvlist(s.attrs.list) + ") yield/" + std::to_string(s.yield_every) + "\n";
+      txt += "T" + std::to_string(t) + ": " + std::to_string(s.reps) + " x " +
+             (s.fresh_handle ? "(new handle like h" + std::to_string(s.handle) + ")" : "h" + std::to_string(s.handle)) +
+             ".Add(" + show_units(s.units, kind) + ", " + sg::show_kvlist(s.attrs.list) + ") yield/" +
+             std::to_string(s.yield_every) + "\n";
     }
   }
-  unsigned ncol = std::min<unsigned>(1 + rd.below(2), static_cast<unsigned>(w.readers.size()));
-  std::vector<unsigned> rounds(ncol), pause(ncol);
   for (unsigned t = 0; t < ncol; ++t)
   {
-    rounds[t] = 2 + rd.below(14);
-    pause[t]  = rd.below(6);
     txt += "C" + std::to_string(t) + ": " + std::to_string(rounds[t]) + " rounds over readers";
     for (unsigned r = t; r < w.readers.size(); r += ncol)
       txt += " " + std::to_string(r);
@@ -1158,20 +1187,31 @@ VH_TARGET(counter_threads, 6,
   std::vector<std::vector<Collection>> log(w.readers.size());
   std::vector<HClock> clocks(ncol);
   std::atomic<unsigned> ready{0};
-  std::atomic<bool> go{false};
+  std::atomic<bool> go{false}, null_handle{false};
   std::vector<std::thread> ths;
   for (unsigned t = 0; t < nrec; ++t)
     ths.emplace_back([&, t]() {
       ready.fetch_add(1);
       while (!go.load(std::memory_order_acquire))
         std::this_thread::yield();
+      std::vector<std::unique_ptr<Handle>> own;
       for (auto &s : progs[t])
       {
-        Handle &h = *w.handles[s.handle];
-        int kind  = w.instrs[static_cast<size_t>(h.instr)].kind;
+        Handle *h = w.handles[s.handle].get();
+        int kind  = w.instrs[static_cast<size_t>(h->instr)].kind;
+        if (s.fresh_handle)
+        {
+          own.push_back(sdk_create(w, h->meter, h->instr));
+          h = own.back().get();
+          if (!(h->cl || h->cd || h->ul || h->ud))
+          {
+            null_handle.store(true);
+            continue;
+          }
+        }
         for (unsigned k = 0; k < s.reps; ++k)
         {
-          api_add(h, kind, s.units, s.attrs.list, s.form);
+          api_add(*h, kind, s.units, s.attrs.list, s.form);
           if (s.yield_every && k % s.yield_every == 0)
             std::this_thread::yield();
         }
@@ -1198,6 +1238,7 @@ VH_TARGET(counter_threads, 6,
   go.store(true, std::memory_order_release);
   for (auto &th : ths)
     th.join();
+  VH_CHECK(c, !null_handle.load(), "a Create call made while collectors were running returned null");
   bool stepped = w.clk.stepped;
   for (auto &k : clocks)
     stepped = stepped || k.stepped;
